@@ -462,7 +462,9 @@ func runC10(e *Env) {
 	valsets := [][]timing.Frac{{fr(1, 1)}, {fr(1, 2), fr(1, 3)}, {fr(3, 2)}, {fr(7, 11)}}
 	metas := [][][2]string{nil, {{"bpm", "140"}}, {{"vel", "ff"}}, {{"mtr", "6/8"}}, {{"key", "F#m"}}, {{"txt", "hello world"}}, {{"lic", "la: la #1"}}, {{"mrk", "é♯"}}, {{"key", "Cb"}, {"bpm", "61"}, {"txt", "- x"}, {"vel", "pp"}, {"mtr", "5/4"}}, {{"foo", "bar"}}, {{"txt", "null"}}, {{"txt", "'q'"}}, {{"txt", "\"dq\""}}, {{"txt", "verse 1: "}}, {{"lic", "la\t"}, {"mrk", "m  "}}, {{"txt", "a  b"}},
 		// what a YAML printer escapes, and what merely looks like an escape
-		{{"txt", "😀"}}, {{"txt", `\U0001F600`}}, {{"lic", `\\U0001F600`}}, {{"mrk", `"\U0001F600"`}}, {{"txt", `\u00e9 \x41 \n \t \\`}}, {{"txt", "a\u0085b\u2028c"}}, {{"lic", "a\u00a0nbsp"}}, {{"mrk", "e\u0301"}}, {{"txt", "𝄪 𝄫"}}, {{"txt", "\x7f\x1b"}}}
+		{{"txt", "😀"}}, {{"txt", `\U0001F600`}}, {{"lic", `\\U0001F600`}}, {{"mrk", `"\U0001F600"`}}, {{"txt", `\u00e9 \x41 \n \t \\`}}, {{"txt", "a\u0085b\u2028c"}}, {{"lic", "a\u00a0nbsp"}}, {{"mrk", "e\u0301"}}, {{"txt", "𝄪 𝄫"}}, {{"txt", "\x7f\x1b"}},
+		// a value that spans lines (LF, CR LF, CR), a free key next to the documented ones
+		{{"txt", "line 1\nline 2"}}, {{"lic", "a\r\nb"}}, {{"mrk", "x\ry"}}, {{"sec", "A"}, {"txt", "t"}, {"note to self", "x"}}}
 	// many entries on one instance, a long key, a long value
 	many := [][2]string{}
 	for i := 0; i < 20; i++ {
